@@ -680,6 +680,9 @@ def gen_html_bodies():
             "table-tail": lambda: N("table", N("tr", td(text=tk.v())), tail=tk.v()),
             "dl": lambda: N("dl", N("dt", text=tk.v()), N("dd", text=tk.v())),
             "pre": lambda: N("pre", text=tk.v() + "  " + tk.v()),
+            # elements without content of their own: the text that FOLLOWS them (their tail) is ordinary body text
+            "empty-leaves": lambda: N("p", N("img", tail=tk.v()), N("span", tail=tk.v()), N("a", tail=tk.v(), name="x"), N("input", tail=tk.v()), text=tk.v()),
+            "empty-blocks": lambda: N("div", N("div", tail=tk.v()), N("i", tail=tk.v()), N("p", tail=tk.v())),
         }
     names = list(alts(Tok()))
     for k in (1, 2):
@@ -721,6 +724,32 @@ def gen_html_sources():
                                     for i in range(len(combo) - 1))
                 case = "text-after-removed-element" if after_removed else ("removed-markup" if removed & set(combo) else "plain")
                 yield case, src, spec
+    # empty-element syntax (<x/>, XHTML): an element written this way has no content and no end tag; whatever it is (a removed
+    # element, a void element, a block, a table cell, a title) the text after it is ordinary text of the container
+    def empties(tk):
+        return {
+            "script/": lambda: ('<script type="text/javascript" src="r.js"/>', ""),
+            "iframe/": lambda: ('<iframe src="f.html"/>', ""),
+            "object/": lambda: ('<object data="fig.svg"/>', ""),
+            "style/": lambda: ("<style/>", ""),
+            "br/": lambda: ("<br/>", "\n"),
+            "img/": lambda: ('<img src="x"/>', ""),
+            "span/": lambda: ("<span/>", ""),
+            "p/": lambda: ("<p/>", "\n"),
+            "text": lambda: (lambda a: (f" {a} ", " " + a + " "))(tk.v()),
+            "p": lambda: (lambda a: (f"<p>{a}</p>", "\n" + a + "\n"))(tk.v()),
+        }
+    enames = list(empties(Tok()))
+    for k in (2, 3):
+        for combo in itertools.product(enames, repeat=k):
+            idx = [i for i, c in enumerate(combo) if c.endswith("/")]
+            if not idx or not any(c in ("text", "p") for c in combo[idx[0] + 1:]):
+                continue
+            tk = Tok()
+            a = empties(tk)
+            parts = [a[c]() for c in combo]
+            src = "<html><head><title>t</title></head><body><div>" + "".join(x for x, _ in parts) + "</div></body></html>"
+            yield "empty-element-syntax", src, "".join(y for _, y in parts)
 
 
 def gen_rtf_sources():
